@@ -106,7 +106,9 @@ def c16_add_line_numbers(seed):
     index past line_numbers -- exhaustive over small protect_html images"""
     from pyvc import replay as _r
     gh = _r.real_module('yalafi.shell.genhtml')
-    gh.number_style = 'x'
+    from props import shellenv
+    if shellenv.init_report_module(gh, ['--output', 'html', 'f']) is None:
+        gh.number_style = 'x'
     n = 0
     fails = []
     alpha = ['a', '<br>\n', '&ensp;', '']
